@@ -306,7 +306,7 @@ def drive(prop, tier, seed, cfg):
 
     def add(clause, detail, rp):
         vc[("C12", clause, ())] += 1
-        if sum(1 for v in viols if v["clause"] == clause) < 4:
+        if sum(1 for v in viols if v.get("clause") == clause) < 4:
             viols.append(dict(prop="C12", clause=clause, detail=common.plain(detail), mechs=[], replay=rp))
     # (1) fresh runs agree across hash seeds
     ref = {}
